@@ -63,6 +63,23 @@ pub fn run(out: &mut Out, tier: &str, rng: &mut Rng) {
             out.count("truncation");
         }
     }
+    // special IEEE-754 words in every float field of a Target (NaN, infinities, all-ones, denormal, max)
+    for pos in 0..6usize {
+        for w in [0x7FC0_0000u32, 0x7F80_0000, 0xFF80_0000, 0xFFFF_FFFF, 0x0000_0001, 0x7F7F_FFFF, 0x8000_0000] {
+            for constraint in [0u8, 1, 20] {
+                let mut p = vec![0u8; 25];
+                p[0] = 0x3F;
+                p[1] = 0x80;
+                p[4 * pos..4 * pos + 4].copy_from_slice(&w.to_be_bytes());
+                p[24] = constraint;
+                let mut s = session_frame(0x10, "n").bytes;
+                s.extend(sess::frame(0x44, &p));
+                s.extend(sess::frame(0x45, &[0x1E, 1]));
+                sess::run_case(out, &inst, "sess", &[Ev::Bytes(s), Ev::Close(Close::Eof)], true);
+                out.count("special float words in a Target");
+            }
+        }
+    }
     // all 256 type codes with a small payload
     for ty in 0..=255u8 {
         let gl = 1 + rng.below(30) as usize;
